@@ -39,6 +39,7 @@ def check(ctx):
                   "a client that is not reconnectable must never reopen on its own, and a reconnectable one must wait its "
                   "reconnect timeout between attempts (and restart the timer, otherwise it reopens on every service call and "
                   "never completes a connection)")
+    cutoff_detection(ctx)
     ctx.rule("T4-lifecycle", "receive()/send() of the client transports only classify errors and flag cutoff: they never close/open the socket")
     for cn in ("Client", "ClientTls"):
         for meth in ("receive", "send"):
@@ -102,3 +103,23 @@ def check(ctx):
     ro = A.call_nodes("self.reopen")
     ctx.check(bool(lt) and any(A.dominated_by_edge([r], lt[0], "T") for r in ro), "T9-accept", ac, "accept: server not listening => reopen the socket",
               "a refused socket cannot be reused for the next attempt")
+
+
+def _always(ctx, rule, modn, cn, fname, pat, what, why):
+    """`pat` is called on every pass through cn.fname (its path condition is a tautology)"""
+    from ..rules import path_condition, formula_equiv
+    f = ctx.cls(modn, cn).own_method(fname)
+    V = FuncView(ctx, f)
+    sites = V.need(V.call_nodes(pat), "%s call in %s.%s" % (pat, cn, fname))
+    pc = ("or", [path_condition(V, n, start=[V.cfg.entry.id]) for n in sites])
+    ctx.check(formula_equiv(pc, "True"), rule, sites[0].ast, what, why)
+
+
+def cutoff_detection(ctx):
+    ctx.rule("T2-listen", "the Patron reads its socket on every service pass (a cut-off is only ever noticed by receive())")
+    why = ("a connection dropped while no response is outstanding is never read, so .cutoff is never set and the reconnect arm of "
+           "serviceAll never fires: the reconnectable client keeps the dead socket for ever")
+    _always(ctx, "T2-listen", "aio.http.clienting", "Patron", "serviceAll", "self.serviceResponse",
+            "Patron.serviceAll calls serviceResponse() unconditionally", why)
+    _always(ctx, "T2-listen", "aio.http.clienting", "Patron", "serviceResponse", "self.connector.serviceReceives",
+            "Patron.serviceResponse calls connector.serviceReceives() unconditionally", why)
